@@ -49,6 +49,31 @@ CLAIMS = {
   "Not decided: linearizability of observed histories, lost/duplicated commits as observed, absence of panics (need executions). Assumes published trees are immutable (C03) and the "
   "documented happens-before of sync/atomic and sync.Mutex.",
   "DESIGN.md section 5 C05"),
+ "C11": (
+  "forward must-dataflow over ServeHTTP following the pooled context (callee effect summaries with constant-argument propagation), guard-set (dominating branch facts) and table extraction",
+  "Decides the dispatch structure behind the 404/405/OPTIONS answers: on every path to each special handler (no-route, no-method, auto-OPTIONS, redirect) the context exposes no route, no "
+  "parameters and no trailing-slash flag (scrubbed, and not undone by the intervening lazy lookups, whose whole call tree is summarised); the scope reported there is the constant the handler "
+  "was wrapped with in New (two tables extracted from the code and compared); the OPTIONS and 405 branches are gated by their option flag / method and a non-empty method list; both Allow loops "
+  "use the request's host and matched path with the shared matcher in lazy mode, accept under n != nil && (!tsr || route.ignoreTrailingSlash), the 405 loop excludes exactly the request method, and "
+  "the Allow header is set before the handler runs.",
+  "Not decided: that the listed methods are exactly those that would serve the request (inherits the matcher, C01); '*' handling beyond structure; bodies/statuses of user handlers.",
+  "DESIGN.md section 5 C11"),
+ "C12": (
+  "forward must-dataflow per acquisition of a pooled context over all fields of the context struct (from go/types), with checked exemptions; provenance check of the values stored by Clone",
+  "Decides reset coverage: at each of the (currently 9) points where a pooled context is handed to user code (6 handler calls in ServeHTTP, Router.Lookup, Txn.Lookup, CloneWith) every field of "
+  "the context struct has been assigned since the context left the pool, unless exempt for a reason that is itself checked (allocation-time constants, scratch never read by Context methods, tsrParams read "
+  "only under tsr, the embedded recorder touched only by reset()). A field added to the struct without a reset, a reset variant dropping an assignment, or a branch of ServeHTTP forgetting route/tsr fails. "
+  "Clone stores only fresh or immutable values (no alias of pooled params, writer, request or recorder), clones the request and the response headers.",
+  "Not decided: what user middleware does with contexts; header maps owned by the underlying writer. Single ownership of contexts is C05.5.",
+  "DESIGN.md section 5 C12"),
+ "C13": (
+  "slice-ownership analysis for append, table extraction and comparison, SSA structure checks of the two composition loops and of every middleware list entry",
+  "Decides the structural half of middleware composition: no append extends a middleware slice shared with another object (the concurrent NewRoute race); scope pairing New/ServeHTTP; ServeHTTP -> hall, "
+  "Route.Handle -> hbase, Route.HandleMiddleware -> hself; NewRoute composes (hself, hall) from the route's own list after the option loop; both composition loops run from last to first and filter by "
+  "scope, the route-only chain also by the global flag, results returned in (route-only, all) order; every entry appended to Router.mws is global, every entry appended to Route.mws is route-scoped and "
+  "not global; DefaultOptions prepends Recovery(RouteHandler) then Logger(AllHandlers).",
+  "Not decided: order and once-ness of execution as observed for arbitrary configurations (user middleware may not call next).",
+  "DESIGN.md section 5 C13"),
 }
 
 NOT_APPLICABLE = {
